@@ -6,6 +6,7 @@ mod c03;
 mod c04;
 mod c24;
 mod c39;
+mod probe;
 
 fn main() {
     let args = parse_args();
@@ -27,6 +28,7 @@ fn main() {
         "C04" => c04::run(&args),
         "C24" => c24::run(&args),
         "C39" => c39::run(&args),
+        "PROBE" => probe::run(&args),
         other => {
             eprintln!("HARNESS-ERROR e_conc does not serve property '{other}'");
             2
